@@ -6,8 +6,8 @@ M = 'phylib/io/model.py'
 A = 'phylib/io/array.py'
 
 # the proved 1-D contract of _index_of (contracts/c07.py) read through the position bijection of flatten(): the function is elementwise in `arr`
-contract(A, '_index_of', variant='flattened-matrix', kind='assumed', params={'arr': 'flatmat[int]', 'lookup': 'arr[int]'}, result='flatmat[int]',
-    note='A-FLAT: lifting of the PROVED 1-D contract of _index_of (C07) to a flattened matrix; the body only gathers tmp[arr], which is elementwise',
+contract(A, '_index_of', variant='flattened-matrix', props=['C06'], params={'arr': 'flatmat[int]', 'lookup': 'arr[int]'}, result='flatmat[int]',
+    note='the 1-D contract of _index_of (C07) for a flattened matrix argument: proved on the same body (the final gather tmp[arr] is elementwise)',
     requires=[('lookup-distinct', 'all(lookup[i] != lookup[j] for i in range(len(lookup)) for j in range(i + 1, len(lookup)))'),
               ('lookup-entries-at-least-minus-1', 'all(lookup[i] >= -1 for i in range(len(lookup)))'),
               ('every-element-is-in-the-lookup', 'all(all(any(lookup[i] == arr[s][j] for i in range(len(lookup))) for j in range(len(arr[s]))) for s in range(len(arr)))')],
